@@ -152,9 +152,28 @@ def rule_block_number(report, prog):
                  key(f.qname, 'R(ACK)=A2h|n, R(NAK)=B2h|n, retransmit request R(ACK) with the other number'), f.loc(),
                  'R-block constants changed: %s' % consts_)
     masks = sorted(set(norm(e) for e in ast.walk(f.node) if isinstance(e, ast.Compare) and 'data[0] &' in norm(e.left)))
-    want = {'data[0] & 254 == 242', 'data[0] & 1 != self.pni', 'data[0] & 254 == 162', 'data[0] & 238 == 2'}
+    want = {'data[0] & 254 == 242', 'data[0] & 1 != self.pni', 'data[0] & 254 == 162', 'data[0] & 238 == 2', 'data[0] & 238 != 2'}
     report.check(set(masks) == want, 'C12-R2', key(f.qname, 'response classification masks (WTX F2h, ACK A2h, I-block 02h)'), f.loc(),
                  'response classification changed: %s' % masks)
+    # only I-blocks carry response data: every statement that takes data[1:] into the response lies behind the I-block test of the
+    # block just received (an S(WTX) or R block received while the response is chained must not be appended)
+    inf_edges = []
+    for e, t in cfg.test_nodes.items():
+        if isinstance(e, ast.Compare) and norm(e.left) == 'data[0] & 238' and try_const(e.comparators[0]) == 2:
+            inf_edges.append((t, 'true' if isinstance(e.ops[0], ast.Eq) else 'false'))
+    takes = [node for node in cfg.nodes if node.kind == 'stmt' and isinstance(node.ast, (ast.Assign, ast.AugAssign)) and
+             'data[1:]' in norm(node.ast.value) and norm(node.ast.targets[0] if isinstance(node.ast, ast.Assign) else node.ast.target) == 'response']
+    for node in takes:
+        okk = bool(inf_edges)
+        if okk:
+            # ... of the block just received: no exchange between the passed test and the append
+            for rb in rebinds:
+                if node in cfg.reachable(rb, avoid_edges=inf_edges):
+                    okk = False
+        report.check(okk, 'C12-R2', key(f.qname, 'only an I-block contributes response data', node.ast), f.loc(node.ast),
+                     '`%s` can run for a block that was not tested to be an I-block: an S(WTX) request or R block received during response '
+                     'chaining is appended to the response' % norm(node.ast))
+    report.floor('C12-R2 response data', len(takes), 2)
     # response reassembly: first INF sets, chained blocks append in order
     okk = bool(find(f.node, 'response = data[1:]')) and bool(find(f.node, 'response += data[1:]')) and \
         any(isinstance(l, ast.While) and norm(l.test) == 'bool(data[0] & 16)' for l in walk_no_nested(f.node))
@@ -409,10 +428,15 @@ MUTANTS = [
                     log.error("ISO-DEP unrecoverable protocol error")
                     raise Type4TagCommandError(nfc.tag.PROTOCOL_ERROR)
 
+            if data[0] & 0b11101110 != 0x02:  # INF""", """
+            if data[0] & 0b11101110 != 0x02:  # INF""", 'C12-R3'),
+    ('chained-block-not-classified', T4, """            if data[0] & 0b11101110 != 0x02:  # INF
+                log.error("ISO-DEP protocol error: expected inf")
+                raise Type4TagCommandError(nfc.tag.PROTOCOL_ERROR)
+
             if data[0] & 0x01 != self.pni:
-                log.error("ISO-DEP protocol error: block number")""", """
-            if data[0] & 0x01 != self.pni:
-                log.error("ISO-DEP protocol error: block number")""", 'C12-R3'),
+                log.error("ISO-DEP protocol error: block number")""", """            if data[0] & 0x01 != self.pni:
+                log.error("ISO-DEP protocol error: block number")""", 'C12-R2'),
     ('ack-retry-unbounded', T4, """                    if i <= self.n_retry_ack:
                         log.warning("ISO-DEP timeout error (#%d)" % i)
                         data = bytearray([0xA2 | self.pni])
